@@ -113,7 +113,7 @@ class ClassInfo:
 
 
 class Module:
-    def __init__(self, name, path, relpath, source):
+    def __init__(self, name, path, relpath, source, attr_pairs=None):
         self.name = name
         self.path = path
         self.relpath = relpath
@@ -122,6 +122,8 @@ class Module:
         self.tree = ast.parse(source, filename=str(path))
         from . import alpha, normalise
 
+        if attr_pairs:
+            alpha.apply_attribute_pairs(self.tree, attr_pairs)  # fields renamed package-wide back to their reviewed names (core/alpha.py)
         # meaning-preserving normalisation of spelling variants (core/normalise.py), then
         # locals renamed in the in-memory tree back to the names the rules know (alpha-equivalent program; see core/alpha.py)
         self.normalised = normalise.normalise(self.tree) if os.environ.get("VERIF_NO_NORMALISE") != "1" else {}
@@ -223,10 +225,21 @@ class Repo:
         if not pkg.is_dir():
             raise AnalysisError("package directory %s not found" % pkg)
         self.modules = {}
+        self.attribute_renamings = []
+        pairs = {}
+        if os.environ.get("VERIF_NO_ALPHA") != "1":
+            from . import alpha
+
+            try:
+                raw = {p.stem: ast.parse(p.read_text(encoding="utf-8")) for p in sorted(pkg.glob("*.py"))}
+                self.attribute_renamings = alpha.canonicalise_attributes(raw, alpha.load_table("attributes"))
+                pairs = {u: m for _, u, m in self.attribute_renamings}
+            except SyntaxError:
+                pairs = {}
         for p in sorted(pkg.glob("*.py")):
             src = p.read_text(encoding="utf-8")
             try:
-                self.modules[p.stem] = Module(p.stem, p, "%s/%s" % (self.PACKAGE, p.name), src)
+                self.modules[p.stem] = Module(p.stem, p, "%s/%s" % (self.PACKAGE, p.name), src, attr_pairs=pairs)
             except SyntaxError as e:
                 raise AnalysisError("cannot parse %s: %s" % (p, e))
         if len(self.modules) < 15:
@@ -398,7 +411,7 @@ class Repo:
             for k, v in getattr(m, "normalised", {}).items():
                 norm_[k] = norm_.get(k, 0) + v
         ren = ["%s:%s %s->%s" % (m.name, qn, a, b) for m in self.modules.values() for qn, a, b in getattr(m, "renamings", [])]
-        return {"modules": len(self.modules), "classes": nc, "functions": nf, "digest": self.digest(), "normalised_spellings": norm_, "locals_renamed_to_reviewed_names": ren[:50]}
+        return {"modules": len(self.modules), "classes": nc, "functions": nf, "digest": self.digest(), "normalised_spellings": norm_, "locals_renamed_to_reviewed_names": ren[:50], "fields_renamed_to_reviewed_names": ["%s %s->%s" % r for r in self.attribute_renamings]}
 
 
 # ---------------------------------------------------------------------- small AST helpers used everywhere
